@@ -36,7 +36,7 @@ SCOPE = {"quick": "all 2 x 1640^2 = 5.4M ordered pairs (n<=3, m<=2; colliding in
                   "datasets x 7 build routes x (order variants + near-misses incl. m=3) + exotic names (7 names, n<=2, "
                   "m=1, all pairs) + 300 sampled pairs n=4 (0,8,16,24)",
          "thorough": "all 5 x 1640^2 = 13.4M ordered pairs (5 name triples) + 5 x 701 x 7 build routes + exotic names + "
-                     "20000 sampled pairs n=4, m<=3"}
+                     "100000 sampled pairs n=4, m<=3"}
 CHUNK = 4
 TIMEOUT = 600
 
@@ -163,7 +163,7 @@ def gen_cases(tier, seed):
     for i in range(120 if tier == "quick" else 1500):
         yield {"kind": "history", "seed": seed * 1000003 + i}
     rng = random.Random(seed * 104729 + 17)
-    count = 300 if tier == "quick" else 20000
+    count = 300 if tier == "quick" else 100000
     names4 = [0, 8, 16, 24]
     batch = []
     for _ in range(count):
